@@ -174,11 +174,17 @@ func (w *ServiceMonitor) serviceConfig(name string, passing map[instanceID]bool,
 		"DC": w.dc,
 	}
 
+	// only the entries of instances which are passing now are kept for a
+	// later round in which the lookup fails: an instance which comes back
+	// after it was critical may come back with another address or port,
+	// and the entry from before must not be used for it.
+	var kept []*api.CatalogService
 	for _, svc := range svcs {
 		// check if this instance passed the health check
 		if _, ok := passing[instanceID{svc.Node, svc.ServiceID}]; !ok {
 			continue
 		}
+		kept = append(kept, svc)
 
 		r := routecmd{
 			svc:    svc,
@@ -189,7 +195,7 @@ func (w *ServiceMonitor) serviceConfig(name string, passing map[instanceID]bool,
 
 		config = append(config, cmds...)
 	}
-	return svcs, config, err
+	return kept, config, err
 }
 
 // checksWithTagPrefix filters a list of Consul Health Checks to only the Checks with a Tag that begins with the prefix
